@@ -145,22 +145,19 @@ class BTree(Entity):
         """Look up a key, yielding page read latency for each tree level."""
         self._total_reads += 1
 
-        node = self._root
         for _ in range(self._depth):
             self._total_page_reads += 1
             yield self._page_read_latency
 
-            if node.leaf:
-                idx = bisect.bisect_left(node.keys, key)
-                if idx < len(node.keys) and node.keys[idx] == key:
-                    return node.values[idx]
-                return None
-
-            # Internal node: find child
+        # Resolve against the tree as it is now: a node captured before the
+        # latency may have been split by a concurrent insert.
+        node = self._root
+        while not node.leaf:
             idx = bisect.bisect_right(node.keys, key)
             node = node.children[idx]
-
-        # Should not reach here, but handle edge case
+        idx = bisect.bisect_left(node.keys, key)
+        if idx < len(node.keys) and node.keys[idx] == key:
+            return node.values[idx]
         return None
 
     def get_sync(self, key: str) -> Any | None:
